@@ -5,6 +5,7 @@ import (
 	"go/ast"
 	"go/token"
 	"go/types"
+	"sort"
 	"strings"
 
 	"golang.org/x/tools/go/ssa"
@@ -118,6 +119,7 @@ func c01(c *core.Ctx, r *core.Report) {
 	// ---- R01.seenkey
 	seenKeyRule(c, r, "R01.seenkey", "analysis/taint", "a flow that returns to the second caller of a shared helper chain is not reported")
 	treeKeyRule(c, r, "R01.seenkey", "flows through call chains that differ only in the merged frames are lost")
+	apGrammarRule(c, r, "R01.apgrammar", "analysis/taint")
 	boundsRule(c, r, "R01.bound", func(fn *ssa.Function, rel string) bool { return rel == "analysis/dataflow" || rel == "analysis/taint" },
 		"the guarded summary edge is not created and the flow through it is not reported")
 	memoRule(c, r, "R01.memo", func(fn *ssa.Function, rel string) bool { return rel == "analysis/taint" }, "stale traversal state hides flows")
@@ -395,7 +397,39 @@ func c02(c *core.Ctx, r *core.Report) {
 	r.Floor("R02.drop", 2, "validator and sanitizer stops")
 
 	// ---- R02.polarity
-	if fd, tp := c.Decl("analysis/taint", "isValidatorCondition"); fd != nil {
+	fd, tp := c.Decl("analysis/taint", "isValidatorCondition")
+	if root := c.Func("analysis/taint", "isValidatorCondition"); fd != nil && root != nil {
+		// the polarity logic may sit in a helper of the same package that isValidatorCondition delegates to
+		// (e.g. behind a wrapper): take the function of its call cone that dispatches on the condition's kind
+		hasUnOpArm := func(d *ast.FuncDecl) bool {
+			for _, ts := range core.TypeSwitchesIn(d.Body, tp.TypesInfo, nil) {
+				for _, cl := range ts.Clauses {
+					for _, t := range cl.Types {
+						if t != nil && core.ShortType(t) == "*ssa.UnOp" {
+							return true
+						}
+					}
+				}
+			}
+			return false
+		}
+		if !hasUnOpArm(fd) {
+			var cands []*ssa.Function
+			for f := range c.RepoGraph().Cone(false, root) {
+				if c.FuncPkgRel(f) == "analysis/taint" && f.Object() != nil {
+					cands = append(cands, f)
+				}
+			}
+			sort.Slice(cands, func(i, j int) bool { return cands[i].Name() < cands[j].Name() })
+			for _, f := range cands {
+				if d := c.DeclOfObj(f.Object()); d != nil && d.Body != nil && d.Type.Params.NumFields() > 0 && hasUnOpArm(d) {
+					fd = d
+					break
+				}
+			}
+		}
+	}
+	if fd != nil {
 		r.Analysed("analysis/taint.isValidatorCondition")
 		pol := fd.Type.Params.List[len(fd.Type.Params.List)-1].Names[0].Name
 		for _, ts := range core.TypeSwitchesIn(fd.Body, tp.TypesInfo, nil) {
@@ -446,6 +480,9 @@ func c02(c *core.Ctx, r *core.Report) {
 	r.Floor("R02.polarity", 3, "call, negation, nil check")
 
 	c02whole(c, r)
+	memoRule(c, r, "R02.memo", func(fn *ssa.Function, rel string) bool {
+		return rel == "analysis/taint" || rel == "analysis/dataflow" || rel == "analysis/lang" || rel == "analysis/config"
+	}, "a validator / sanitizer answer computed for one taint problem or value is returned for another, and an unvalidated flow is dropped")
 
 	// ---- R02.allpaths
 	ff := c.Func("analysis/dataflow", "FindPathBetweenBlocks")
